@@ -16,13 +16,35 @@ HasFresh(id) == \E j \in 1..Len(FreshTab) : FreshTab[j].id = id
 FreshOf(id) == FreshTab[CHOOSE j \in 1..Len(FreshTab) : FreshTab[j].id = id].items
 Complete(items) == Len(items) > 0 /\ \A j \in 1..Len(items) : items[j].k # "THROWN"
 
+KnownKeys == ndJsonDeserialize(IOEnv.KNOWN)
+Enabled(k) == \E j \in 1..Len(KnownKeys) : KnownKeys[j].key = k
+(* Known finding C19-direct-install-stale-ids: ep_curve_set_plain/endom/super and fp_prime_set_dense keep the   *)
+(* ids and the pairing flag of the previously SELECTED set, so after ep_param_set(X) a directly installed        *)
+(* curve (pseudo ids >= 1000) reports X's ep_param_level / ep_curve_is_pairf, and ep_map (whose expansion        *)
+(* length depends on the level) differs.  Enabled only for directly installed sets, only for the items           *)
+(* "flags" (bytes pairf = 3rd, level = 6th) and "map".                                                           *)
+KnownStaleIds(e) ==
+    /\ Enabled("C19-direct-install-stale-ids")
+    /\ e.id >= 1000 /\ HasFresh(e.id) /\ Complete(e.items)
+    /\ LET f == FreshOf(e.id) IN
+       /\ Len(f) = Len(e.items)
+       /\ \A j \in 1..Len(f) :
+             \/ e.items[j] = f[j]
+             \/ e.items[j].k = "map" /\ f[j].k = "map"
+             \/ /\ e.items[j].k = "flags" /\ f[j].k = "flags"
+                /\ \A b \in {1, 2, 4, 5} : e.items[j].v[b] = f[j].v[b]
+
 Accept(e) == /\ e.op \in {"probe", "fresh"}
              /\ e.id > 0 /\ HasFresh(e.id)
              /\ Complete(e.items)
              /\ e.items = FreshOf(e.id)
 
 Init == l = 1
-Next == l <= Len(Events) /\ Accept(Events[l]) /\ l' = l + 1
+Next == /\ l <= Len(Events)
+        /\ LET e == Events[l] IN
+             IF Accept(e) THEN TRUE
+             ELSE KnownStaleIds(e) /\ PrintT(<<"@@", "KF", "C19-direct-install-stale-ids", e.i>>)
+        /\ l' = l + 1
 Spec == Init /\ [][Next]_l
 Reached == PrintT(<<"@@", "REACHED", TLCGet("stats").diameter - 1>>)
 =============================================================================
